@@ -1022,7 +1022,7 @@ def cases(rng, tier):
         yield from rest[:30]
     else:
         yield from sc
-    for _ in range(120 if tier == "quick" else 2500):
+    for _ in range(120 if tier == "quick" else 1500):
         yield _gen_hist(rng)
 
 
